@@ -1,6 +1,11 @@
 /-
 C31 — AVM evaluation is total and bounded for every program.
 
+Part A: skeleton theorems (termination, cost, stack depth, verdict) for every table and every op-body function.
+Part B: static check and evaluation agree on instruction boundaries (for every `sem`; rows must be consistent: decided for
+        today's table). Part C: byte-length bound (contract on `sem` outside the re-checked window) and absence of
+        internal crashes for the skeleton and the modelled op family (PARTIAL: assumed of the other op bodies).
+
 All theorems of Part A are about the interpreter skeleton `Model.AVM.step / runLoop / eval` for EVERY opcode table
 (`cfg.tbl`), EVERY field-cost table, EVERY limits record and EVERY op-body function `ex : Exec` — in particular for
 `concreteExec sem` with an arbitrary `sem`. Nothing is assumed about op bodies: `step` charges the cost and checks the
@@ -10,11 +15,13 @@ import AlgoVerif.Model.AVM
 import AlgoVerif.Lemmas.AVM
 import AlgoVerif.Lemmas.AVMCheck
 import AlgoVerif.Lemmas.AVMAgree
+import AlgoVerif.Lemmas.AVMBytes
+import AlgoVerif.Lemmas.AVMSafe
 import AlgoVerif.Gen.OpTable
 import AlgoVerif.Gen.AVMFacts
 import AlgoVerif.Props.C34
 namespace Props.C31
-open Model.OpTables Model.AVM Lemmas.AVM Lemmas.AVMCheck Lemmas.AVMAgree
+open Model.OpTables Model.AVM Lemmas.AVM Lemmas.AVMCheck Lemmas.AVMAgree Lemmas.AVMBytes Lemmas.AVMSafe
 
 /-! ## Part A — skeleton theorems (every table, every `ex`) -/
 
@@ -192,7 +199,54 @@ section Gen
 open Gen.OpTable
 set_option maxRecDepth 100000
 
-theorem gen_rows_wf : opSpecs.all specWF = true := by decide +kernel
+/-- the field-cost table of today's tree as the `fcost` component of a configuration -/
+def genFcost (id f : Nat) : LinCost :=
+  match Gen.AVMFacts.fieldCosts.find? (fun p => p.1 == id) with
+  | some (_, l) => l[f]?.getD (0, 0, 0, 0)
+  | none => (0, 0, 0, 0)
+
+def genLimits : Limits :=
+  { maxStackDepth := Gen.AVMFacts.maxStackDepth, maxStringSize := Gen.AVMFacts.maxStringSize,
+    backBranchV := Gen.AVMFacts.backBranchEnabledVersion, sharedResV := Gen.AVMFacts.sharedResourcesVersion,
+    protoByte := Gen.AVMFacts.protoByte, evalMaxArgs := Gen.AVMFacts.evalMaxArgs,
+    maxArgSize := Gen.AVMFacts.maxLogicSigArgSize, blankLen := Gen.AVMFacts.blankStackLen,
+    scratchLen := Gen.AVMFacts.scratchLen }
+
+def genCfg (mode lsv minv maxCost : Nat) (args : Option (List (List Nat))) (pooled isolate : Bool) : Cfg :=
+  { lim := genLimits, tbl := buildTables opSpecs, fcost := genFcost, lv := logicVersion, lsv := lsv, minv := minv, mode := mode,
+    hasAccess := false, args := args, maxCost := maxCost, pooled := pooled, isolate := isolate }
+
+/-- all row conditions of Parts B and C at once, with the evalFunc classified ONCE per row (the classification compares
+    strings, which is what costs time in the kernel) -/
+def rowAllK (cfg : Cfg) (s : Spec) : Option OpK → Bool
+  | none => specWFk s none && rowBytesOKk s none && rowSafeK cfg s none && (s.opcode != Gen.AVMFacts.protoByte)
+  | some k => specWFk s (some k) && rowBytesOKk s (some k) && rowSafeK cfg s (some k) &&
+      (s.opcode != Gen.AVMFacts.protoByte || k == OpK.proto)
+
+theorem gen_rows_all : opSpecs.all (fun s => rowAllK (genCfg 0 0 0 0 none false false) s (opKind s.fn)) = true := by
+  decide +kernel
+
+/-- FULL (finite, today's table, regenerated every run). Every OpSpecs row is consistent (`specWF`), builds fresh byte
+    values only inside the window step re-checks (`rowBytesOK`), gives its modelled body the argument types and immediates
+    it reads (`rowSafe`), and the proto opcode byte belongs to `proto`. -/
+theorem gen_row_all (r : Spec) (hr : r ∈ opSpecs) (mode lsv minv maxCost : Nat) (args : Option (List (List Nat)))
+    (pooled isolate : Bool) :
+    specWF r = true ∧ rowBytesOK r = true ∧ rowSafe (genCfg mode lsv minv maxCost args pooled isolate) r = true ∧
+    (r.opcode = Gen.AVMFacts.protoByte → opKind r.fn = some .proto) := by
+  have h := List.all_eq_true.mp gen_rows_all r hr
+  unfold specWF rowBytesOK rowSafe
+  cases hk : opKind r.fn with
+  | none =>
+    rw [hk] at h
+    simp only [rowAllK, Bool.and_eq_true, bne_iff_ne, ne_eq] at h
+    exact ⟨h.1.1.1, h.1.1.2, h.1.2, fun hp => absurd hp h.2⟩
+  | some k =>
+    rw [hk] at h
+    simp only [rowAllK, Bool.and_eq_true, Bool.or_eq_true, bne_iff_ne, ne_eq, beq_iff_eq] at h
+    refine ⟨h.1.1.1, h.1.1.2, h.1.2, fun hp => ?_⟩
+    rcases h.2 with h2 | h2
+    · exact absurd hp h2
+    · rw [h2]
 
 theorem specWF_alias0 (r : Spec) : specWF (Props.C34.alias0 r) = specWF r := rfl
 
@@ -201,19 +255,14 @@ theorem gen_specWF (v op : Nat) (next : Option Nat) (s : Spec)
     (h : getSpec (buildTables opSpecs) v op next = some s) : specWF s = true := by
   obtain ⟨hrow, _⟩ := Props.C34.table_version_sound opSpecs v op next s h
   rcases hrow with hrow | ⟨_, r, hr, _, he⟩
-  · exact List.all_eq_true.mp gen_rows_wf s hrow
+  · exact (gen_row_all s hrow 0 0 0 0 none false false).1
   · subst he
     rw [specWF_alias0]
-    exact List.all_eq_true.mp gen_rows_wf r hr
+    exact (gen_row_all r hr 0 0 0 0 none false false).1
 
 /-! ### non-vacuity: a version-8 program with a back-branching loop, run against today's tables and limits -/
 
-def demoLimits : Limits :=
-  { maxStackDepth := Gen.AVMFacts.maxStackDepth, maxStringSize := Gen.AVMFacts.maxStringSize,
-    backBranchV := Gen.AVMFacts.backBranchEnabledVersion, sharedResV := Gen.AVMFacts.sharedResourcesVersion,
-    protoByte := Gen.AVMFacts.protoByte, evalMaxArgs := Gen.AVMFacts.evalMaxArgs,
-    maxArgSize := Gen.AVMFacts.maxLogicSigArgSize, blankLen := Gen.AVMFacts.blankStackLen,
-    scratchLen := Gen.AVMFacts.scratchLen }
+def demoLimits : Limits := genLimits
 
 def demoCfg (maxCost : Nat) (pooled : Bool) : Cfg :=
   { lim := demoLimits, tbl := buildTables opSpecs, fcost := fun _ _ => (0, 0, 0, 0), lv := logicVersion, lsv := logicVersion,
@@ -235,6 +284,9 @@ example : verdictOf (eval (concreteExec demoSem) (demoCfg 20 false) demoProg 0) 
 example : verdictOf (eval (concreteExec demoSem) (demoCfg 9 false) demoProg 0) = some (.error .budget, 9, 10) := by decide +kernel
 -- pooled budget of 7 (MaxCost is then irrelevant): cost_bounded / pool_accounting hypotheses
 example : verdictOf (eval (concreteExec demoSem) (demoCfg 20 true) demoProg 7) = some (.error .budget, 7, 8) := by decide +kernel
+-- clear_state_isolation hypotheses: application mode, isolated ClearState budget of 9 out of a pool of 12: stops at cost 9
+example : (eval (concreteExec demoSem) { demoCfg 9 true with mode := modeApp, isolate := true } demoProg 12).map
+    (fun f => (f.verdict, f.st.cost, f.st.pool)) = some (.error .budget, 9, 3) := by decide +kernel
 -- check_eval_agree hypotheses: check succeeds and records the instruction starts; begin succeeds
 example : (match check (demoCfg 20 false) demoProg 0 with | .ok cs => some cs.starts | .error _ => none) = some [12, 10, 7, 6, 5, 3, 1] := by
   decide +kernel
@@ -247,5 +299,140 @@ example : (match check (demoCfg 20 false) [8, 0x81, 3, 0x42, 0xff, 0xfc] 0 with 
   decide +kernel
 
 end Gen
+
+/-! ## Part C — byte-length bound, and no internal crash for the modelled ops -/
+
+/-- FULL for the skeleton and the modelled op family; the contract `SemBounded` is what is ASSUMED of every other op body
+    (outside the values `step` re-checks itself, it leaves only bounded values). After every completed step every byte
+    value on the stack and in scratch space is at most maxStringSize long. `hlsv`: from protocol version 13 on the
+    constants of the trusted `pushbytess` are size-checked by the code (before, they deliberately are not). -/
+theorem bytes_bounded (sem : Sem) (cfg : Cfg) (prog : List Nat) (v pc : Nat) (pool : Int) (st : State)
+    (hrows : ∀ op next s, getSpec cfg.tbl v op next = some s → rowBytesOK s = true)
+    (hsem : SemBounded cfg.lim sem) (hlsv : cfg.lsv ≥ 13)
+    (hr : Reach (concreteExec sem) cfg prog v (initState cfg pc pool) st) :
+    (∀ x ∈ st.m.stack, ValOK cfg.lim x) ∧ (∀ x ∈ st.m.scratch, ValOK cfg.lim x) :=
+  bounded_reach hrows hsem hlsv hr
+    ⟨by intro x hx; simp [initState, emptyMach] at hx,
+     by intro x hx; simp only [initState, emptyMach, List.mem_replicate] at hx; rw [hx.2]; trivial⟩
+
+/-- the hypotheses under which the model's guards are unreachable -/
+structure SafeEnv (sem : Sem) (cfg : Cfg) (prog : List Nat) (v : Nat) : Prop where
+  rows : ∀ op next s, getSpec cfg.tbl v op next = some s → rowSafe cfg s = true
+  proto : ProtoWF cfg v
+  sem : ∀ s stk imm, opKind s.fn = none → sem s stk imm ≠ .error .crash
+  bytes : ∀ b ∈ prog, b < 256
+  scratch : 256 ≤ cfg.lim.scratchLen
+
+/-- PARTIAL by design: FULL for the skeleton (`step`, cost computation, post-checks) and for every op of the modelled
+    family (stack manipulation, constants and pushes, args, both branch encodings, switch / match, callsub / retsub /
+    proto / frame_dig / frame_bury, scratch, concat / substring / extract / replace / getbyte / setbyte / getbit /
+    setbit / bzero / len / itob / btoi, uint64 arithmetic and comparisons): no step of any run ever takes a guard of
+    the model (`Err.crash`: an out-of-range slice / array access or an ill-typed cell in the Go code). For every other
+    op body it is the HYPOTHESIS `SafeEnv.sem` — searched by the harness, not proved. -/
+theorem sem_no_crash (sem : Sem) (cfg : Cfg) (prog : List Nat) (v pc : Nat) (pool : Int) (st : State)
+    (henv : SafeEnv sem cfg prog v)
+    (hr : Reach (concreteExec sem) cfg prog v (initState cfg pc pool) st) (hpc : st.pc < prog.length) :
+    ∀ st', step (concreteExec sem) cfg prog v st ≠ .error (.crash, st') :=
+  step_no_crash henv.rows henv.sem henv.bytes
+    (stOK_reach henv.proto (stOK_init cfg prog pc pool henv.scratch) hr) hpc
+
+theorem begin_err_ne_crash {cfg : Cfg} {prog : List Nat} {e : Err} {pc : Nat} (h : begin cfg prog = .error (e, pc)) :
+    e ≠ .crash := by
+  unfold begin at h
+  repeat' split at h
+  all_goals first
+    | (injection h with h; injection h with h _; subst h; simp; done)
+    | (cases h; done)
+
+/-- FULL (same hypotheses): the outcome of `eval` is never the crash error. -/
+theorem eval_no_crash (sem : Sem) (cfg : Cfg) (prog : List Nat) (pool : Int) (f : Final)
+    (henv : ∀ v, SafeEnv sem cfg prog v) (h : eval (concreteExec sem) cfg prog pool = some f) :
+    f.verdict ≠ .error .crash := by
+  unfold eval at h
+  simp only [] at h
+  by_cases h0 : cfg.lsv = 0
+  · rw [if_pos h0] at h; injection h with h; subst h; simp
+  · rw [if_neg h0] at h
+    cases hargs : cfg.args with
+    | some as =>
+      simp only [hargs] at h
+      by_cases h1 : as.length > cfg.lim.evalMaxArgs
+      · simp only [if_pos h1] at h; injection h with h; subst h; simp
+      · simp only [if_neg h1] at h
+        by_cases h2 : (as.any fun a => decide (a.length > cfg.lim.maxArgSize)) = true
+        · simp only [if_pos h2] at h; injection h with h; subst h; simp
+        · simp only [if_neg h2] at h
+          cases hb : begin cfg prog with
+          | error p =>
+            obtain ⟨e, pc⟩ := p
+            simp only [hb] at h; injection h with h; subst h
+            intro hc; injection hc with hc; exact begin_err_ne_crash hb hc
+          | ok p =>
+            obtain ⟨v, vlen⟩ := p
+            simp only [hb] at h
+            obtain ⟨stl, hreach, _, _, hfin⟩ := runLoop_some _ _ _ _ h
+            rcases hfin with ⟨_, hv, _⟩ | ⟨hpc, e, hs, hv⟩
+            · rw [hv]; unfold finish; split <;> (try split) <;> simp
+            · rw [hv]
+              intro hc
+              injection hc with hc; subst hc
+              exact sem_no_crash sem cfg prog v vlen pool stl (henv v) hreach hpc _ hs
+    | none =>
+      simp only [hargs] at h
+      cases hb : begin cfg prog with
+      | error p =>
+        obtain ⟨e, pc⟩ := p
+        simp only [hb] at h; injection h with h; subst h
+        intro hc; injection hc with hc; exact begin_err_ne_crash hb hc
+      | ok p =>
+        obtain ⟨v, vlen⟩ := p
+        simp only [hb] at h
+        obtain ⟨stl, hreach, _, _, hfin⟩ := runLoop_some _ _ _ _ h
+        rcases hfin with ⟨_, hv, _⟩ | ⟨hpc, e, hs, hv⟩
+        · rw [hv]; unfold finish; split <;> (try split) <;> simp
+        · rw [hv]
+          intro hc
+          injection hc with hc; subst hc
+          exact sem_no_crash sem cfg prog v vlen pool stl (henv v) hreach hpc _ hs
+
+section Gen2
+open Gen.OpTable
+set_option maxRecDepth 100000
+
+theorem gen_scratch : 256 ≤ genLimits.scratchLen := by decide
+
+/-- FULL (finite, today's table). Every row any version's table can return satisfies the three row conditions. -/
+theorem gen_row_conditions (v op : Nat) (next : Option Nat) (s : Spec)
+    (h : getSpec (buildTables opSpecs) v op next = some s) (mode lsv minv maxCost : Nat) (args : Option (List (List Nat)))
+    (pooled isolate : Bool) :
+    rowBytesOK s = true ∧ rowSafe (genCfg mode lsv minv maxCost args pooled isolate) s = true ∧
+    (op = Gen.AVMFacts.protoByte → opKind s.fn = some .proto) := by
+  obtain ⟨hrow, _, hop, _⟩ := Props.C34.table_version_sound opSpecs v op next s h
+  have key : ∀ r ∈ opSpecs, rowBytesOK r = true ∧ rowSafe (genCfg mode lsv minv maxCost args pooled isolate) r = true ∧
+      (r.opcode = Gen.AVMFacts.protoByte → opKind r.fn = some .proto) :=
+    fun r hr => (gen_row_all r hr mode lsv minv maxCost args pooled isolate).2
+  rcases hrow with hrow | ⟨_, r, hr, _, he⟩
+  · obtain ⟨a, b, c⟩ := key s hrow
+    exact ⟨a, b, fun h => c (by rw [hop]; exact h)⟩
+  · subst he
+    obtain ⟨a, b, c⟩ := key r hr
+    exact ⟨a, b, fun h => c (by rw [← h]; exact hop)⟩
+
+/-- today's tables, limits and field costs satisfy every table hypothesis of `sem_no_crash` / `bytes_bounded`; what
+    remains is the assumption about the unmodelled op bodies and that program bytes are bytes -/
+theorem gen_safe_env (sem : Sem) (prog : List Nat) (v mode lsv minv maxCost : Nat) (args : Option (List (List Nat)))
+    (pooled isolate : Bool) (hsem : ∀ s stk imm, opKind s.fn = none → sem s stk imm ≠ .error .crash)
+    (hbytes : ∀ b ∈ prog, b < 256) : SafeEnv sem (genCfg mode lsv minv maxCost args pooled isolate) prog v :=
+  ⟨fun op next s h => (gen_row_conditions v op next s h mode lsv minv maxCost args pooled isolate).2.1,
+   fun next s h => (gen_row_conditions v _ next s h mode lsv minv maxCost args pooled isolate).2.2 rfl,
+   hsem, hbytes, gen_scratch⟩
+
+-- non-vacuity: the driver's `sem` (every unmodelled op is an error of its own) meets the contracts
+example : ∀ s stk imm, opKind s.fn = none → demoSem s stk imm ≠ .error .crash := by
+  intro s stk imm _ h; simp [demoSem] at h
+example : SemBounded genLimits demoSem := by intro s stk imm stk' _ h; simp [demoSem] at h
+example : ∀ b ∈ demoProg, b < 256 := by decide
+
+end Gen2
 
 end Props.C31
